@@ -1,3 +1,4 @@
 import Cgm.Lemmas.AuditCmd
 import Cgm.Props.C18
+import Cgm.Props.C18b
 #audit_namespace Cg.C18
